@@ -343,3 +343,38 @@ Definition ok_codec (c : list fdecl * bool * list (string * jval) * list (string
   let '(fs, has_addl, o, obs) := c in
   list_eqb jentry_eqb (sort_jobj (encode jval None fs has_addl (decode jval jval_is_null fs has_addl o))) obs.
 Definition mismatches_codec := mismatches ok_codec.
+
+(** C09: union accessors on compiled types; member JSON objects with canonical-text member values. *)
+From V Require Import Model.Union.
+Definition ujobj := list (string * string).
+Definition sort_ujobj (l : ujobj) := sort_kv l.
+
+(** observed after From<Member>(member) [then Merge<Member2>(member2)]: the union's JSON, sorted by key;
+    and what ValueByDiscriminator dispatches to (None = error). *)
+Definition mk_disc (prop : string) (mapping : list (string * nat)) : disc := {| d_prop := prop; d_mapping := mapping |}.
+Definition dtext (v : string) : option string :=
+  (* canonical JSON text of a string without escapes: "..." *)
+  match v with
+  | String "034" r =>
+      let fix strip (s : string) : option string :=
+        match s with
+        | EmptyString => None
+        | String "034" EmptyString => Some EmptyString
+        | String c r' => match strip r' with Some t => Some (String c t) | None => None end
+        end in strip r
+  | _ => None
+  end.
+Definition dstr (s : string) : string := String "034" (s ++ String "034" "").
+
+Definition ok_union (c : option (string * list (string * nat)) * nat * ujobj * option (nat * ujobj) * list (string * string) * (ujobj * option nat)) : bool :=
+  let '(d, i, member, merge, fixed, (obs_json, obs_dispatch)) := c in
+  let dd := option_map (fun p => mk_disc (fst p) (snd p)) d in
+  let st0 := {| u_raw := []; u_fixed := map (fun p => (fst p, Some (snd p))) fixed |} in
+  let st1 := from_member string dd dstr i member st0 in
+  let st2 := match merge with Some (j, m2) => merge_member string dd dstr j m2 st1 | None => st1 end in
+  list_eqb pair_eqb (sort_ujobj (marshal string st2)) obs_json
+  && match dd with
+     | Some x => opt_eqb Nat.eqb (dispatch string x dtext st2) obs_dispatch
+     | None => true
+     end.
+Definition mismatches_union := mismatches ok_union.
